@@ -199,7 +199,7 @@ func compile0(expr ast.Expr, env1 *val.Env, dbg bool) compiler.Closure {
 			case types.KList:
 				idx := int(idxc(env).Num().V)
 				lst := x.List().V
-				util.Assert(idx < len(lst), "out of range %d of %s", idx, x)
+				util.Assert(idx >= 0 && idx < len(lst), "out of range %d of %s", idx, x)
 				return lst[idx]
 			case types.KMap:
 				k := idxc(env)
